@@ -67,6 +67,17 @@ template<class A> std::string strides_of(A const& a) {
 	if constexpr(A::rank_v == 0) { return ""; } else { auto s = vo::tup_vec_impl(a.strides(), std::make_index_sequence<static_cast<std::size_t>(A::rank_v)>{}); std::string r; for(auto x : s) { r += std::to_string(x) + ","; } return r; }
 }
 
+// hidden state of an owning array (not part of its value): every stored layout field and what its base pointer is (null / a live block of the ledger / anything else, e.g. a
+// released block).  Part of the search key: two pools with equal values but different hidden state are different states (they may have different futures).
+template<class L> void layout_hidden_(L const& l, std::string& s) { if constexpr(L::dimensionality > 0) { s += std::to_string(l.offset()) + ":" + std::to_string(l.nelems()) + ","; layout_hidden_(l.sub(), s); } }
+template<class A> std::string hidden_of(A const& a) {
+	std::string s = strides_of(a) + "h";
+	if constexpr(A::rank_v > 0) { layout_hidden_(a.layout(), s); }
+	auto const* b = rawp(a.base());
+	s += b == nullptr ? "N" : (instr::W.blocks.count(static_cast<void const*>(b)) ? "L" : "X");
+	return s;
+}
+
 struct Cmp { bool ok = true; std::string oracle, detail; };
 inline Cmp bad(std::string o, std::string d) { return Cmp{false, std::move(o), std::move(d)}; }
 
